@@ -84,10 +84,35 @@ def _frame(cols):
 
 
 # formulas: 'a' is the factor whose levels / kind change; 'b' another categorical; 'x', 'w' numeric
+# {LV}: the literal list of the levels seen at fit; {LVR}: the same reversed; {LVS}: the same plus one declared level
+# that never occurs (explicitly nominated levels are just another spelling of the categorical factor)
 CAT_FORMULAS = ["a", "a - 1", "a + x", "a:x", "x:a", "a:x - 1", "a:b", "a*b", "a*x", "b + a:x", "a:x:w", "a:b:x",
-                "C(a)", "C(a):x", "C(a, contr.treatment)", "b:C(a) - 1"]
+                "C(a)", "C(a):x", "C(a, contr.treatment)", "b:C(a) - 1",
+                "C(a, levels={LV})", "C(a, levels={LVR}):x", "b:C(a, levels={LV}) - 1", "C(a, contr.treatment, levels={LVS})",
+                "x + C(a, levels={LVR})*b"]
 # contrasts for which "the column of an absent level" is not a zero column are only checked for names/warnings
-NONDUMMY_FORMULAS = ["C(a, contr.sum)", "C(a, contr.helmert):x", "C(a, contr.poly)"]
+NONDUMMY_FORMULAS = ["C(a, contr.sum)", "C(a, contr.helmert):x", "C(a, contr.poly)",
+                     "C(a, contr.sum, levels={LV})", "C(a, contr.helmert, levels={LVR}):x"]
+
+
+def _resolve(formula, storage, seen_levels):
+    """fill the level-list placeholders with the literal values the column holds under this storage"""
+    if "{LV" not in formula:
+        return formula
+    vals = _level_values(storage, sorted(seen_levels))[0]
+    extra = 77 if storage == "category-int" else "s"
+    return (formula.replace("{LVR}", repr(vals[::-1])).replace("{LVS}", repr(vals + [extra])).replace("{LV}", repr(vals)))
+
+
+def _is_alone(formula):
+    """the formula consists of a single factor (operators inside call parentheses / brackets do not count)"""
+    depth, out = 0, []
+    for ch in formula.replace(" - 1", ""):
+        depth += ch in "([{"
+        depth -= ch in ")]}"
+        if depth == 0:
+            out.append(ch)
+    return not any(ch in ":*+" for ch in out)
 NUM_FORMULAS = ["x", "x - 1", "x + a", "a:x", "x:w", "x:a - 1", "b + x:w", "x*a"]
 
 
@@ -133,18 +158,19 @@ def _cases(rng, thorough):
         lvl_scen.append(("gained:" + "".join(present) + "+" + "".join(news), seq))
     for storage, output in itertools.product(storages, outputs):
         train = base(storage, a_train)
-        for formula in CAT_FORMULAS + NONDUMMY_FORMULAS:
+        for template in CAT_FORMULAS + NONDUMMY_FORMULAS:
+            formula = _resolve(template, storage, LEVELS)
             for scen, seq in lvl_scen:
                 new = base(storage, seq)
                 cases.append({"formula": formula, "train": train, "new": new, "output": output, "scenario": scen,
-                              "storage": storage, "dummy": formula in CAT_FORMULAS,
+                              "storage": storage, "dummy": template in CAT_FORMULAS,
                               "absent": [lv for lv in LEVELS if lv not in seq]})
             # follow-up shorter / longer than the training frame, single row
             for m, seq in ((1, ["r"]), (3, ["q", "q", "z"])):
                 new = base(storage, seq)
                 cases.append({"formula": formula, "train": train, "new": new, "output": output,
                               "scenario": ("gained:q+z" if "z" in seq else "lost:r") + f":rows={m}", "storage": storage,
-                              "dummy": formula in CAT_FORMULAS, "absent": [lv for lv in LEVELS if lv not in seq]})
+                              "dummy": template in CAT_FORMULAS, "absent": [lv for lv in LEVELS if lv not in seq]})
         # ---- kind change: categorical at fit arrives numeric
         for formula in [f for f in CAT_FORMULAS if "C(" not in f]:
             for num_kind, vals in (("float", [1.0, 2.0, 3.0, 2.0, 1.0, 3.0, 2.0]), ("int", [1, 2, 3, 2, 1, 3, 2]),
@@ -230,8 +256,8 @@ def _random_cases(rng, n_cases):
             k = rng.randint(1, 3)
             new["x"] = ([["m", "n", "o"][rng.randrange(k)] for _ in range(m)], rng.choice(["object", "category"]))
             seq, scen = [], f"kind:num->cat:random-{k}"
-        cases.append({"formula": formula, "train": train, "new": new, "output": output, "scenario": scen,
-                      "storage": storage, "dummy": formula in CAT_FORMULAS,
+        cases.append({"formula": _resolve(formula, storage, levels), "train": train, "new": new, "output": output,
+                      "scenario": scen, "storage": storage, "dummy": formula in CAT_FORMULAS,
                       "absent": [lv for lv in levels if lv not in seq] if kind == "lost" else []})
     return cases
 
@@ -301,8 +327,7 @@ def _judge_pair(res, c, key, spec, subset, sub_mode, expected, new, FactorEncodi
             raised = None
         except Exception as e:  # noqa: BLE001 - outcome to be judged
             m2, raised = None, e
-    where = "alone" if formula.replace(" - 1", "") in ("a", "x", "C(a)", "C(a, contr.treatment)", "C(a, contr.sum)",
-                                                        "C(a, contr.poly)") else "in-interaction-or-sum"
+    where = ("alone" if _is_alone(formula) else "in-interaction-or-sum") + (":explicit-levels" if "levels=" in formula else "")
     if scen.startswith("kind:"):
         direction = scen.split(":")[1]
         if not isinstance(raised, FactorEncodingError):
@@ -334,7 +359,7 @@ def _judge_pair(res, c, key, spec, subset, sub_mode, expected, new, FactorEncodi
                      f"{scen} [{sub_mode}]: columns {bad} of absent level(s) {c['absent']} are not all zero")
     if kind == "gained":
         if not any(issubclass(w.category, DataMismatchWarning) for w in caught):
-            res.fail("C09.gained-levels.DataMismatchWarning", f"{output}:{c['storage']}:{where}{sub_tag}",
+            res.fail("C09.gained-levels.DataMismatchWarning", f"{where}{sub_tag}",
                      wit("C09.gained-levels.DataMismatchWarning"),
                      f"{scen} [{sub_mode}]: warnings emitted: {[w.category.__name__ for w in caught]}")
 
@@ -398,7 +423,8 @@ def run_bounded(ctx):
     )
     with ctx.bounded(
         "train-followup-pairs",
-        rule="19 categorical-side formulas x {same, all 6 proper level sub-sets, 5 unseen-level mixes, 1-row and 3-row "
+        rule="26 categorical-side formulas (the factor bare, wrapped in C(...), with explicitly nominated levels in three "
+             "orders, under 5 contrasts) x {same, all 6 proper level sub-sets, 5 unseen-level mixes, 1-row and 3-row "
              "follow-ups} + kind changes (cat->num as float/int/other floats over 13 formulas; num->cat with 1..3 levels "
              "over 8 formulas) x storage {object, category, category of ints} x output {pandas, numpy, sparse} x spec "
              "{as recorded, ModelSpec.subset to interaction terms only / main effects only / reversed order / last term "
